@@ -119,6 +119,32 @@ def opZc (op : String) (a : Args) : Option String := do
     let plainpw := zcSame pdata
       (readEntry (zcDecoder rows pm) (some pw) false false (Spec.Crc32.crc32 pdata) 0 praw)
     some s!"arch hdr={toHex hdr} ct={cts} right={right} nopw={nopw} wrong={w} plainpw={plainpw}"
+  | "zc.reopen" =>
+    -- a sequence of opens on one archive object: the model's archive has no state between opens, so every
+    -- step is answered like a first open (which is the property: each open behaves like the first)
+    let pw ← a.hex? "pw"; let data ← a.hex? "data"; let wrong ← a.hex? "wrong"
+    let m ← zcMethodNum (← a.get? "m")
+    let comp ← if m == 0 then some data else a.hex? "comp"
+    let rows := parseCodec ((a.get? "codec").getD "-")
+    let pm ← a.nat? "pm"; let praw ← a.hex? "praw"; let pdata ← a.hex? "pdata"
+    let seq ← a.get? "seq"
+    let crc := Spec.Crc32.crc32 data
+    let ct := writeEntry pw [comp] crc
+    let ctb := match ct with | .ok b => b | _ => []
+    let colon (s : String) : String := s.replace " " ":"
+    let step (st : String) : Option String :=
+      match st with
+      | "r" => some (zcSame data (readEntry (zcDecoder rows m) (some pw) true false crc 0 ctb))
+      | "w" => some (zcSame data (readEntry (zcDecoder rows m) (some wrong) true false crc 0 ctb))
+      | "n" => some (zcOpened (readEntryNoPassword (zcDecoder rows m) true false crc 0 ctb))
+      | "b" => some (match byIndex true false crc 0 ctb with
+          | .ok _ => "opened" | .err e => Out.className e | .panic _ => "panic")
+      | "p" => some (zcSame pdata
+          (readEntry (zcDecoder rows pm) (some pw) false false (Spec.Crc32.crc32 pdata) 0 praw))
+      | "x" => some (match ct with | .ok _ => "raw" | .err e => Out.className e | .panic _ => "panic")
+      | _ => none
+    let outs ← (seq.splitOn ",").mapM step
+    some s!"reopen {"|".intercalate (outs.map colon)}"
   | "zc.fentry" =>
     -- an entry encrypted by another producer: flags, CRC, DOS time, method and stored bytes as an
     -- independent central-directory walk of the harness found them in that producer's archive
